@@ -26,6 +26,8 @@ from .values import (
     js_parse_int,
     js_parse_float,
     python_to_js,
+    array_index,
+    to_boolean,
 )
 from .errors import JSError, JSTypeError, MemoryLimitError, TimeLimitError
 
@@ -150,7 +152,7 @@ class Context:
         # Create a callable object that acts as constructor
         obj_constructor = JSCallableObject(object_constructor)
         obj_constructor._prototype = object_prototype
-        object_prototype.set("constructor", obj_constructor)
+        object_prototype.set_hidden("constructor", obj_constructor)
 
         # Add Object.prototype methods
         def proto_toString(this_val, *args):
@@ -172,26 +174,14 @@ class Context:
             return "[object Object]"
 
         def proto_hasOwnProperty(this_val, *args):
-            prop = to_string(args[0]) if args else ""
-            if isinstance(this_val, JSArray):
-                # For arrays, check both properties and array indices
-                try:
-                    idx = int(prop)
-                    if 0 <= idx < len(this_val._elements):
-                        return True
-                except (ValueError, TypeError):
-                    pass
-                return (
-                    this_val.has(prop)
-                    or prop in this_val._getters
-                    or prop in this_val._setters
-                )
+            prop = to_string(args[0]) if args else "undefined"
+            if isinstance(this_val, JSFunction):
+                return this_val.properties.has_own(prop) or prop in ("length", "name")
             if isinstance(this_val, JSObject):
-                return (
-                    this_val.has(prop)
-                    or prop in this_val._getters
-                    or prop in this_val._setters
-                )
+                return this_val.has_own(prop)
+            if isinstance(this_val, str):
+                index = array_index(prop)
+                return prop == "length" or (index is not None and index < len(this_val))
             return False
 
         def proto_valueOf(this_val, *args):
@@ -211,39 +201,50 @@ class Context:
         # These methods need special handling for 'this'
         from .values import JSBoundMethod
 
-        object_prototype.set("toString", JSBoundMethod(proto_toString))
-        object_prototype.set("hasOwnProperty", JSBoundMethod(proto_hasOwnProperty))
-        object_prototype.set("valueOf", JSBoundMethod(proto_valueOf))
-        object_prototype.set("isPrototypeOf", JSBoundMethod(proto_isPrototypeOf))
+        object_prototype.set_hidden("toString", JSBoundMethod(proto_toString))
+        object_prototype.set_hidden("hasOwnProperty", JSBoundMethod(proto_hasOwnProperty))
+        object_prototype.set_hidden("valueOf", JSBoundMethod(proto_valueOf))
+        object_prototype.set_hidden("isPrototypeOf", JSBoundMethod(proto_isPrototypeOf))
 
         # Store for other constructors to use
         self._object_prototype = object_prototype
 
+        def own_keys(obj):
+            """Own enumerable keys of a script value."""
+            if isinstance(obj, JSFunction):
+                return obj.properties.keys()
+            if isinstance(obj, JSObject):
+                return obj.keys()
+            if isinstance(obj, str):
+                return [str(i) for i in range(len(obj))]
+            return []
+
+        def read(obj, key):
+            """obj[key] as the script sees it (accessors run)."""
+            vm = self._current_vm
+            if vm is not None:
+                return vm._get_property(obj, key)
+            return obj.get(key) if isinstance(obj, JSObject) else UNDEFINED
+
         def keys_fn(*args):
             obj = args[0] if args else UNDEFINED
-            if not isinstance(obj, JSObject):
-                return JSArray()
             arr = JSArray()
-            arr._elements = list(obj.keys())
+            arr._elements = list(own_keys(obj))
             return arr
 
         def values_fn(*args):
             obj = args[0] if args else UNDEFINED
-            if not isinstance(obj, JSObject):
-                return JSArray()
             arr = JSArray()
-            arr._elements = [obj.get(k) for k in obj.keys()]
+            arr._elements = [read(obj, k) for k in own_keys(obj)]
             return arr
 
         def entries_fn(*args):
             obj = args[0] if args else UNDEFINED
-            if not isinstance(obj, JSObject):
-                return JSArray()
             arr = JSArray()
             arr._elements = []
-            for k in obj.keys():
+            for k in own_keys(obj):
                 entry = JSArray()
-                entry._elements = [k, obj.get(k)]
+                entry._elements = [k, read(obj, k)]
                 arr._elements.append(entry)
             return arr
 
@@ -251,58 +252,104 @@ class Context:
             if not args:
                 return JSObject()
             target = args[0]
-            if not isinstance(target, JSObject):
+            if not isinstance(target, (JSObject, JSFunction)):
                 return target
+            vm = self._current_vm
             for i in range(1, len(args)):
                 source = args[i]
-                if isinstance(source, JSObject):
-                    for k in source.keys():
-                        target.set(k, source.get(k))
+                for k in own_keys(source):
+                    if vm is not None:
+                        vm._set_property(target, k, read(source, k))
+                    elif isinstance(target, JSObject):
+                        target.set(k, read(source, k))
             return target
+
+        def function_prototype():
+            constructor = self._globals.get("Function")
+            proto = constructor.get("prototype") if isinstance(constructor, JSObject) else None
+            return proto if isinstance(proto, JSObject) else NULL
 
         def get_prototype_of(*args):
             obj = args[0] if args else UNDEFINED
+            if isinstance(obj, JSFunction):
+                return function_prototype()
             if not isinstance(obj, JSObject):
                 return NULL
             return getattr(obj, "_prototype", NULL) or NULL
 
         def set_prototype_of(*args):
-            if len(args) < 2:
-                return UNDEFINED
-            obj, proto = args[0], args[1]
-            if not isinstance(obj, JSObject):
-                return obj
-            if proto is NULL or proto is None:
-                obj._prototype = None
-            elif isinstance(proto, JSObject):
-                obj._prototype = proto
+            obj = args[0] if args else UNDEFINED
+            proto = args[1] if len(args) > 1 else UNDEFINED
+            if obj is UNDEFINED or obj is NULL:
+                raise JSTypeError("Object.setPrototypeOf called on null or undefined")
+            if not (proto is NULL or isinstance(proto, JSObject)):
+                raise JSTypeError("Object prototype may only be an Object or null")
+            if isinstance(obj, JSObject):
+                current = None if proto is NULL else proto
+                while current is not None:
+                    if current is obj:
+                        raise JSTypeError("Cyclic __proto__ value")
+                    current = current._prototype
+                obj._prototype = None if proto is NULL else proto
             return obj
 
         def define_property(*args):
             """Object.defineProperty(obj, prop, descriptor)."""
-            if len(args) < 3:
-                return UNDEFINED
-            obj, prop, descriptor = args[0], args[1], args[2]
-            if not isinstance(obj, JSObject):
-                return obj
+            obj = args[0] if args else UNDEFINED
+            prop = args[1] if len(args) > 1 else UNDEFINED
+            descriptor = args[2] if len(args) > 2 else UNDEFINED
+            if isinstance(obj, JSFunction):
+                target = obj.properties
+            elif isinstance(obj, JSObject):
+                target = obj
+            else:
+                raise JSTypeError("Object.defineProperty called on non-object")
+            if not isinstance(descriptor, JSObject):
+                raise JSTypeError("Property description must be an object")
             prop_name = to_string(prop)
+            existed = target.has_own(prop_name)
 
-            if isinstance(descriptor, JSObject):
-                # Check for getter/setter
-                getter = descriptor.get("get")
-                setter = descriptor.get("set")
+            getter = descriptor.get("get")
+            setter = descriptor.get("set")
+            has_accessor = descriptor.has_own("get") or descriptor.has_own("set")
+            for accessor in (getter, setter):
+                if accessor is not UNDEFINED and not (
+                    isinstance(accessor, JSFunction) or callable(accessor)
+                ):
+                    raise JSTypeError("Getter/setter must be a function")
+            if has_accessor:
+                if descriptor.has_own("value"):
+                    raise JSTypeError(
+                        "Invalid property descriptor: accessors and a value"
+                    )
+                if isinstance(target, JSArray) and target.has_own(prop_name):
+                    raise JSTypeError("Cannot redefine an array element")
+                if descriptor.has_own("get"):
+                    if getter is UNDEFINED:
+                        target._getters.pop(prop_name, None)
+                        if prop_name not in target._setters:
+                            target.define_setter(prop_name, None)
+                    else:
+                        target.define_getter(prop_name, getter)
+                if descriptor.has_own("set"):
+                    if setter is UNDEFINED:
+                        target._setters.pop(prop_name, None)
+                        if prop_name not in target._getters:
+                            target.define_getter(prop_name, None)
+                    else:
+                        target.define_setter(prop_name, setter)
+            elif descriptor.has_own("value") or not target.has_own(prop_name):
+                value = descriptor.get("value")
+                vm = self._current_vm
+                if isinstance(target, JSArray) and vm is not None and (
+                    prop_name == "length" or array_index(prop_name) is not None
+                ):
+                    vm._set_property(target, prop_name, value)
+                else:
+                    target.set(prop_name, value)
 
-                if getter is not UNDEFINED and getter is not NULL:
-                    obj.define_getter(prop_name, getter)
-                if setter is not UNDEFINED and setter is not NULL:
-                    obj.define_setter(prop_name, setter)
-
-                # Check for value (only if no getter/setter)
-                if getter is UNDEFINED and setter is UNDEFINED:
-                    value = descriptor.get("value")
-                    if value is not UNDEFINED:
-                        obj.set(prop_name, value)
-
+            if descriptor.has_own("enumerable") or not existed:
+                target.hide(prop_name, not to_boolean(descriptor.get("enumerable")))
             return obj
 
         def define_properties(*args):
@@ -310,12 +357,11 @@ class Context:
             if len(args) < 2:
                 return UNDEFINED
             obj, props = args[0], args[1]
-            if not isinstance(obj, JSObject) or not isinstance(props, JSObject):
-                return obj
+            if not isinstance(props, JSObject):
+                raise JSTypeError("Property descriptions must be an object")
 
             for key in props.keys():
-                descriptor = props.get(key)
-                define_property(obj, key, descriptor)
+                define_property(obj, key, read(props, key))
 
             return obj
 
@@ -324,11 +370,9 @@ class Context:
             proto = args[0] if args else NULL
             properties = args[1] if len(args) > 1 else UNDEFINED
 
-            obj = JSObject()
-            if proto is NULL or proto is None:
-                obj._prototype = None
-            elif isinstance(proto, JSObject):
-                obj._prototype = proto
+            if not (proto is NULL or isinstance(proto, JSObject)):
+                raise JSTypeError("Object prototype may only be an Object or null")
+            obj = JSObject(None if proto is NULL else proto)
 
             if properties is not UNDEFINED and isinstance(properties, JSObject):
                 define_properties(obj, properties)
@@ -340,15 +384,13 @@ class Context:
             if len(args) < 2:
                 return UNDEFINED
             obj, prop = args[0], args[1]
+            if isinstance(obj, JSFunction):
+                obj = obj.properties
             if not isinstance(obj, JSObject):
                 return UNDEFINED
             prop_name = to_string(prop)
 
-            if (
-                not obj.has(prop_name)
-                and prop_name not in obj._getters
-                and prop_name not in obj._setters
-            ):
+            if not obj.has_own(prop_name):
                 return UNDEFINED
 
             descriptor = JSObject()
@@ -356,14 +398,20 @@ class Context:
             getter = obj._getters.get(prop_name)
             setter = obj._setters.get(prop_name)
 
-            if getter or setter:
+            if prop_name in obj._getters or prop_name in obj._setters:
                 descriptor.set("get", getter if getter else UNDEFINED)
                 descriptor.set("set", setter if setter else UNDEFINED)
+            elif isinstance(obj, JSArray) and prop_name not in obj._properties:
+                descriptor.set(
+                    "value",
+                    obj.length if prop_name == "length" else obj.get_index(int(prop_name)),
+                )
+                descriptor.set("writable", True)
             else:
-                descriptor.set("value", obj.get(prop_name))
+                descriptor.set("value", obj._properties[prop_name])
                 descriptor.set("writable", True)
 
-            descriptor.set("enumerable", True)
+            descriptor.set("enumerable", prop_name in obj.keys())
             descriptor.set("configurable", True)
 
             return descriptor
@@ -400,7 +448,8 @@ class Context:
 
         arr_constructor = JSCallableObject(array_constructor)
         arr_constructor._prototype = array_prototype
-        array_prototype.set("constructor", arr_constructor)
+        arr_constructor.set("prototype", array_prototype)
+        array_prototype.set_hidden("constructor", arr_constructor)
 
         # Store for other uses
         self._array_prototype = array_prototype
@@ -446,7 +495,7 @@ class Context:
             this._elements.sort(key=cmp_to_key(compare_fn))
             return this
 
-        array_prototype.set("sort", JSBoundMethod(array_sort))
+        array_prototype.set_hidden("sort", JSBoundMethod(array_sort))
 
         # Array.isArray()
         def is_array(*args):
@@ -483,7 +532,7 @@ class Context:
         constructor = JSCallableObject(error_constructor)
         constructor._name = error_name
 
-        error_prototype.set("constructor", constructor)
+        error_prototype.set_hidden("constructor", constructor)
         constructor.set("prototype", error_prototype)
 
         return constructor
@@ -940,7 +989,7 @@ class Context:
         fn_constructor = JSCallableObject(function_constructor_fn)
 
         # Function.prototype - add basic methods
-        fn_prototype = JSObject()
+        fn_prototype = JSObject(getattr(self, "_object_prototype", None))
 
         # These are implemented in VM's _get_property for JSFunction
         # but we still set them here for completeness
